@@ -21,12 +21,12 @@ import (
 // the builtin table: name, arity, primitive), in a canonical rendering with
 // parameters named p0, p1.
 var reference = map[string]string{
-	"read":   `Function{params:0 body:Read{}}`,
-	"write":  `Function{params:1 body:Write{Value:p0}}`,
-	"aton":   `Function{params:1 body:Aton{Value:p0}}`,
-	"toa":    `Function{params:1 body:Toa{Value:p0}}`,
-	"exit":   `Function{params:1 body:Exit{Value:p0}}`,
-	"fromto": `Function{params:2 body:While{Condition:BinOp{Op:"<" Left:p0 Right:p1} Body:Block[Yield{Target:p0}, Assign{VarRef:p0 Value:BinOp{Op:"+" Left:p0 Right:Int 1}}]}}`,
+	"read":    `Function{params:0 body:Read{}}`,
+	"write":   `Function{params:1 body:Write{Value:p0}}`,
+	"aton":    `Function{params:1 body:Aton{Value:p0}}`,
+	"toa":     `Function{params:1 body:Toa{Value:p0}}`,
+	"exit":    `Function{params:1 body:Exit{Value:p0}}`,
+	"fromto":  `Function{params:2 body:While{Condition:BinOp{Op:"<" Left:p0 Right:p1} Body:Block[Yield{Target:p0}, Assign{VarRef:p0 Value:BinOp{Op:"+" Left:p0 Right:Int 1}}]}}`,
 	"indices": `Function{params:1 body:Block[Assign{VarRef:Name"i" Value:Int 0}, While{Condition:BinOp{Op:"<" Left:Name"i" Right:UnOp{Op:"#" Target:p0}} Body:Block[Yield{Target:Name"i"}, Assign{VarRef:Name"i" Value:BinOp{Op:"+" Left:Name"i" Right:Int 1}}]}]}`,
 	"elems":   `Function{params:1 body:Block[Assign{VarRef:Name"i" Value:Int 0}, While{Condition:BinOp{Op:"<" Left:Name"i" Right:UnOp{Op:"#" Target:p0}} Body:Block[Yield{Target:IndexAt{Ary:p0 At:Name"i"}}, Assign{VarRef:Name"i" Value:BinOp{Op:"+" Left:Name"i" Right:Int 1}}]}]}`,
 }
